@@ -325,7 +325,19 @@ def check_case(case):
     if out["B"] != b_alone:
         wrong.append("B")
     if wrong:
-        return {"ok": False, "bucket": "%s:%s-wrong" % (case["cls"], "+".join(wrong)),
+        # bucket = the specific pair, direction, side and wrong outcome, so that a recorded finding covers one concrete
+        # failure and any other wrong result of the same pair is still reported
+        def short(o):
+            if o and o[0] == "ok" and isinstance(o[1], tuple) and o[1] and o[1][0] == "dt":
+                return o[1][1][:16]
+            if o and o[0] == "ok" and o[1] is None:
+                return "None"
+            if o and o[0] == "exc":
+                return "raises-" + o[1]
+            import hashlib
+            return "r" + hashlib.blake2b(repr(o).encode(), digest_size=4).hexdigest()
+        return {"ok": False, "bucket": "%s:pair%d%s:%s-wrong:%s" % (case["cls"], case["pair"], case.get("dir", "AB"), "+".join(wrong),
+                                                                   "/".join(short(out[w]) for w in wrong)),
                 "detail": "A=%r preempted at event %d (%s) by B=%r (%s start): A -> %r (alone %r); B -> %r (alone %r)"
                           % (A, k, stt["where"], B, "warm" if warm else "cold", out["A"], a_alone, out["B"], b_alone),
                 "key": key, "cls": cls}
@@ -345,8 +357,6 @@ def _distinct_lines(ctx):
     def it(shard, nshards):
         combos = []
         for (i, c, a, b, d) in _pairs_with_dirs():
-            if ctx.quick and derive_seed(ctx.seed, "pairpick", i, d) % 2:
-                continue
             for warm in (True, False):
                 combos.append((i, c, a, b, d, warm))
         NCH = 6
